@@ -863,8 +863,10 @@ impl SvgElement {
         // shorthands and no native x/y. Defaulting those to 0 would silently
         // place anything positioned relative to it at the origin, so report it
         // as not ready (causing a retry) instead.
-        if let Some(attr) = ["xy", "cxy", "xy1", "xy2"]
+        // (a connector is in the same state until its `start` / `end` are resolved)
+        if let Some(attr) = ["xy", "cxy", "xy1", "xy2", "start", "end"]
             .iter()
+            .filter(|a| self.is_connector() || !matches!(**a, "start" | "end"))
             .find(|a| self.has_attr(a))
         {
             return Err(SvgdxError::MissingBoundingBox(format!(
